@@ -75,23 +75,24 @@ def gen_case(rng, flavour):
         if flavour == "md5" and r < 0.12:
             # signature objects built from the sketches (implementation-only ops, prefixed '@')
             if nsig == 0 or rng.random() < 0.25:
-                lines.append(f"@sig {nsig} {h}" + (" nm" if rng.random() < 0.5 else ""))
+                lines.append(f"sig {nsig} {h}")
                 nsig += 1
             else:
                 g = rng.randrange(nsig)
                 c = rng.random()
                 if c < 0.35:
-                    lines.append(f"@sigmd5 {g}")
-                elif c < 0.7:
-                    lines.append(f"@sigadd {g} " + "".join(rng.choice("ACGT") for _ in range(rng.randint(21, 40))))
-                elif c < 0.8:
-                    lines.append(f"@sigsetmh {g} {h}")
-                elif c < 0.9:
-                    lines.append(f"@sigcopy {nsig} {g}" + (" mut" if rng.random() < 0.5 else ""))
+                    lines.append(f"sigmd5 {g}")
+                elif c < 0.72:
+                    alphabet = "ACGT" if rng.random() < 0.8 else "ACGTN"
+                    seq = "".join(rng.choice(alphabet) for _ in range(rng.randint(18, 40)))
+                    lines.append(f"sigadd {g} {seq} {1 if 'N' in seq or rng.random() < 0.5 else 0}")
+                elif c < 0.84:
+                    lines.append(f"sigsetmh {g} {h}")
+                elif nsig < 6:
+                    lines.append(f"sigcopy {nsig} {g}")
                     nsig += 1
                 else:
-                    lines.append(f"@sigfreeze {nsig} {g}")
-                    nsig += 1
+                    lines.append(f"sigmd5 {g}")
             continue
         if flavour == "md5" and r < 0.30:
             lines.append(rng.choice(["md5", "md5raw"]) + f" {h}")
@@ -148,6 +149,16 @@ def post_model(lines):
     """model prints md5 pre-images; apply md5"""
     out = []
     for l in lines:
+        if l.startswith("sig k=") and " md5pre " in l:
+            head, _, rest = l.partition(" md5pre ")
+            parts = []
+            for piece in ("md5pre " + rest).split(" | "):
+                pp = piece.split(" ")
+                k = int(pp[1])
+                mins = [int(x) for x in pp[2].split(",")] if len(pp) > 2 and pp[2] else []
+                parts.append("md5 " + common.md5_of_pre(k, mins))
+            out.append(head + " " + " | ".join(parts))
+            continue
         if l.startswith("md5pre "):
             parts = l.split(" ")
             k = int(parts[1])
@@ -370,6 +381,16 @@ def oracle_md5(case, impl, ksize=21):
     bad = []
     for idx, (op, obs) in enumerate(zip(case, impl)):
         w = op.split()
+        if obs.startswith("sig k=") and " md5 " in obs:
+            head, _, rest = obs.partition(" md5 ")
+            f = dict(p.split("=", 1) for p in head.split(" ")[1:] if "=" in p)
+            mins = [int(x) for x in f["mins"].split(",")] if f.get("mins") else []
+            exp = common.md5_of_pre(int(f["k"]), mins)
+            got = [x.replace("md5 ", "").strip() for x in ("md5 " + rest).split(" | ")]
+            if any(g != exp for g in got):
+                bad.append((idx, "C11:stale-md5:signature", f"after `{op}` the signature reports md5 {got[0]} (its sketch: {got[-1]}) "
+                                                             f"but the digest of k={f['k']} and its current {len(mins)} hashes is {exp}"))
+            continue
         if op.startswith("@") and obs.startswith("sig md5="):
             f = dict(p.split("=", 1) for p in obs.split(" ")[1:] if "=" in p)
             mins = [int(x) for x in f["mins"].split(",")] if f.get("mins") else []
